@@ -414,6 +414,36 @@ class RouteMessage(Contract):
         I.oblige(self.name(f"raises_only_when_the_stream_is_closed_or_cancelled[{e.cls_name}]"), z3.BoolVal(ok))
 
 
+class NewRequestStream(Contract):
+    """new_request_stream(req_id): registers a one-shot stream under req_id and returns its receive end; every other
+    entry of the per-request table is left exactly as it was (no waiter is forgotten: no lost responses)"""
+    key = f"{STDIO}::StdioClient.new_request_stream"
+    prop = "C13"
+    covers = ("return",)
+
+    def setup(self, I):
+        self.client = ST.make_client(I)
+        pend = I.fresh("pending")
+        I.assume(z3.And(V.is_dict(pend), Val.dsize(pend) >= 0))
+        I.set_attr(self.client, "_pending", pend, record=False)
+        self.pend = pend
+        rid = I.fresh("req_id", z3.StringSort())
+        self.rid = rid
+        return [self.client, V.VStr(rid)], {}
+
+    def post(self, I, result):
+        now, _ = I.get_field(self.client, "_pending")
+        q = z3.String("nrs!q")
+        I.oblige(self.name("registers_a_stream_under_the_request_id"),
+                 z3.And(V.is_dict(now), z3.Select(Val.dkeys(now), self.rid), V.is_obj(z3.Select(Val.dvals(now), self.rid)),
+                        V.is_obj(result)))
+        I.oblige(self.name("every_other_waiter_stays_registered_unchanged"),
+                 z3.ForAll([q], z3.Implies(q != self.rid,
+                                           z3.And(z3.Select(Val.dkeys(now), q) == z3.Select(Val.dkeys(self.pend), q),
+                                                  z3.Implies(z3.Select(Val.dkeys(self.pend), q),
+                                                             z3.Select(Val.dvals(now), q) == z3.Select(Val.dvals(self.pend), q))))))
+
+
 class RouteModular(Contract):
     """call-site form: delivers msg (ghost `delivered` += [src(msg)]) or raises ClosedResourceError"""
     key = f"{STDIO}::StdioClient._route_message"
@@ -580,7 +610,7 @@ _old_canaries = C13.canaries
 
 def _contracts(self):
     cs = _old_contracts(self)
-    cs += [RouteMessage(), SendErrorResponse()]
+    cs += [RouteMessage(), NewRequestStream(), SendErrorResponse()]
     for mode in ("dated", "none"):
         for shape in ("batch", "single"):
             cs.append(ProcessMessageData(mode, shape))
